@@ -54,7 +54,7 @@ type c06Oblig struct {
 
 func checkC06(p *Prog, r *Result, tier string) {
 	r.Technique = "sign analysis by abstract interpretation over go/ssa (domain: subsets of {<0, =0, >0}; branch refinement per CFG edge; field-based summaries of struct fields; call-site joins for parameters of statically-called functions; stable-field symbols), obligations generated for every slice bound, integer divisor and counted loop of the planner and of the plugin functions that call it; must-pass-through rule for request validation"
-	r.Explanation = "Every obligation of the following kinds in resource/plugins/cpumem/schedule and resource/plugins/cpumem is generated from the SSA form and discharged by the sign analysis under the stated entry assumptions: SB every non-constant slice bound is provably not negative (a negative bound panics); DV every integer divisor is provably not zero (division by zero panics); LP every loop `for <len or Len()> >= n` whose bound n does not change in the loop has n provably positive (with n <= 0 the condition is always true and the loop, which appends a plan per iteration, never ends). " +
+	r.Explanation = "Every obligation of the following kinds in resource/plugins/cpumem/schedule and resource/plugins/cpumem is generated from the SSA form and discharged by the sign analysis under the stated entry assumptions: SB every non-constant slice bound is provably not negative (a negative bound panics); MK every non-constant length or capacity handed to make([]T, …) is provably not negative; DV every integer divisor is provably not zero (division by zero panics); LP every loop `for <len or Len()> >= n` whose bound n does not change in the loop has n provably positive (with n <= 0 the condition is always true and the loop, which appends a plan per iteration, never ends). " +
 		"VAL the entry assumptions on the request come from WorkloadResourceRequest.Validate (it returns an error for negative memory or CPU and for a bound request without CPU) and every plugin entry point that plans (CalculateDeploy, CalculateRealloc, GetNodesDeployCapacity) returns Validate's error before it reaches the planner or the allocation helpers. Nothing is executed; upper bounds of slice expressions and indexes are not decided."
 	r.NotCovered = "upper bounds (index < len, high <= cap); termination of loops whose variant is not a parameter; arithmetic overflow; panics inside library calls; memory exhaustion"
 	r.Assumptions = []string{"share base > 0; max share = -1 or > 0 (property quantifier)", "request CPU >= 0 and memory >= 0 after Validate (VAL)", "methods named Len return a non-negative int", "A1 no reflection/unsafe"}
@@ -121,6 +121,20 @@ func checkC06(p *Prog, r *Result, tier string) {
 						}
 						obs = append(obs, c06Oblig{f, "slice-high", x.High, ins, sZero | sPos, txt, x.Pos(), "upper bound"})
 					}
+				case *ssa.MakeSlice:
+					for _, b := range []struct {
+						v    ssa.Value
+						what string
+					}{{x.Len, "length"}, {x.Cap, "capacity"}} {
+						if b.v != nil && !isConst(b.v) {
+							if c, ok := b.v.(*ssa.Call); ok {
+								if bi, ok := c.Call.Value.(*ssa.Builtin); ok && (bi.Name() == "len" || bi.Name() == "cap") {
+									continue
+								}
+							}
+							obs = append(obs, c06Oblig{f, "make-" + b.what, b.v, ins, sZero | sPos, "make(" + x.Type().String() + ", …)", x.Pos(), b.what})
+						}
+					}
 				case *ssa.BinOp:
 					if (x.Op == token.QUO || x.Op == token.REM) && isIntType(x.Type()) && !isConst(x.Y) {
 						txt := x.String()
@@ -174,7 +188,7 @@ func checkC06(p *Prog, r *Result, tier string) {
 			}
 		}
 	}
-	rule := map[string]string{"slice-low": "SB", "slice-high": "SB", "divisor": "DV", "loop-step": "LP"}
+	rule := map[string]string{"slice-low": "SB", "slice-high": "SB", "divisor": "DV", "loop-step": "LP", "make-length": "MK", "make-capacity": "MK"}
 	seenKey := map[string]int{}
 	for _, o := range obs {
 		e, pt, reached := a.envAt(o.fn, o.ins)
@@ -198,6 +212,8 @@ func checkC06(p *Prog, r *Result, tier string) {
 		switch o.kind {
 		case "slice-low", "slice-high":
 			why = fmt.Sprintf("the %s may be negative (sign %s): the slice expression panics (slice bounds out of range)", o.whatN, s)
+		case "make-length", "make-capacity":
+			why = fmt.Sprintf("the %s of the slice being made may be negative (sign %s): make panics (makeslice: len/cap out of range)", o.whatN, s)
 		case "divisor":
 			why = fmt.Sprintf("the divisor may be zero (sign %s): integer divide by zero panics", s)
 		case "loop-step":
